@@ -20,8 +20,8 @@ RULE = ("case = one read history on Unblock1014 (each history ends with a read w
         "handed to unblock_1014, or one VBS stream read blocked and unblocked. Directed: every residue r in 0..1011 of "
         "bytes already delivered, reached by two chunkings ([r]; [1012, r] or 4-byte reads), crossed with the next "
         "read size (quick: ~120 boundary sizes; thorough: every size 1..2024); validate: every truncation length "
-        "0..1014*B and every value of every trailer byte for B in 1..4; seeded: 1..40 reads incl. no-size reads on "
-        "1..8 block images from three producers. distinct = distinct (producer, blocks, ((residue, size|all), ...)) "
+        "0..1014*B and every value of every trailer byte for B in 1..4 and 65 (130 too in thorough); seeded: 1..40 reads "
+        "incl. no-size reads on 1..8 (7%: up to 140) block images from three producers. distinct = distinct (producer, blocks, ((residue, size|all), ...)) "
         "or (fault kind, B, offset, value); non-trivial = a read crosses a payload edge / the fault changes the image")
 COMPONENTS = {
     "real": ["cardutil.mciipm.Unblock1014", "cardutil.mciipm.unblock_1014", "cardutil.mciipm.VbsReader(blocked=True)",
@@ -213,8 +213,10 @@ def plan(tier, seed, wave):
         step = 8 if tier == "thorough" else 32
         for lo in range(0, 1012, step):
             tasks.append({"fam": "sweep", "lo": lo, "hi": min(1012, lo + step), "tier": tier})
-        for B in (1, 2, 3, 4):
+        for B in (1, 2, 3, 4, 65):
             tasks.append({"fam": "validate", "blocks": B, "tier": tier})
+        if tier == "thorough":
+            tasks.append({"fam": "validate", "blocks": 130, "tier": tier})
         tasks.append({"fam": "inverse", "tier": tier})
     if tier == "quick":
         if wave > 0:
@@ -233,7 +235,7 @@ def gen_seeded(seed_i):
     if kn.random() < 0.2:
         maxlen = workload.pick_knob(kn)
         return {"kind": "reader_equiv", "max": maxlen, "records": workload.gen_records(wl, maxlen, 12)}
-    blocks = kn.randint(1, 8)
+    blocks = kn.randint(1, 8) if kn.random() < 0.93 else kn.randint(9, 140)
     length = max(0, blocks * 1012 - kn.choice([0, 0, 1, 2, 500, 1011]))
     return {"kind": "unblocker_history", "producer": kn.choice(["ref", "ref", "block1014", "block_1014"]),
             "payload_len": length, "reads": workload.gen_read_sizes(wl)}
@@ -288,7 +290,7 @@ def run_task(task):
                 _fail(part, fl, scn)
         for b in range(B):
             for off in (b * 1014 + 1012, b * 1014 + 1013):
-                for val in range(256):
+                for val in (range(256) if B <= 4 else (0x00, 0x41, 0x40, 0xFF)):
                     scn = {"kind": "unblock_validate", "blocks": B, "payload_len": plen,
                            "fault": {"kind": "substitute", "off": off, "val": val}}
                     fails = judge_validate(scn)
